@@ -1,8 +1,9 @@
+import Chartparse.Proofs.TrackProofs
 import Chartparse.Proofs.Group
 import Chartparse.Gen.Tables
 /-! Property theorems of C02 (statements only; helper lemmas live in `Proofs/`). -/
 namespace Chartparse.Props.C02
-open Chartparse Chartparse.Inst
+open Chartparse Chartparse.Inst Chartparse.Tempo
 
 theorem C02_cover :
     ∀ (ds : List NDatum),
@@ -64,5 +65,17 @@ theorem C02_interleave (lines : List Str) :
 /-- non-vacuity: a three-lane chord with an interleaved S line and a flag, then a single note one tick later -/
 example : (groups [⟨5, 0, 0⟩, ⟨5, 3, 10⟩, ⟨5, 4, 0⟩, ⟨5, 5, 0⟩, ⟨6, 1, 0⟩]).map lanes =
     [[true, false, false, true, true], [false, true, false, false, false]] := by decide
+
+theorem buildNotes_spec :
+    ∀ (res : Int) (evs : List BpmEv) (sps : List Phrase) (gs : List (List NDatum))
+    (prev : Option NoteEv) (b s : Nat) (ns : List NoteEv) (h : buildNotes res evs sps gs prev b s = .ok ns),
+    NotesOf res evs sps gs prev b s ns :=
+  @Chartparse.Inst.buildNotes_spec
+
+/-- **C02 (track)**: one note per group, at the group's tick, with exactly the group's lanes -/
+theorem C02_track :
+    ∀ {res evs sps gs prev b s ns} (h : NotesOf res evs sps gs prev b s ns),
+    ns.map (·.tick) = gs.map gtick ∧ ns.map (·.lanes) = gs.map lanes :=
+  @Chartparse.Inst.notes_ticks_lanes
 
 end Chartparse.Props.C02
